@@ -70,6 +70,8 @@ type rangeInfo struct {
 }
 
 type Exec struct {
+	stopsLoop map[string]bool
+	backPCs   []string // path conditions of loop back edges
 	assertHit map[*CallAssert]bool // before/after clauses that matched a call site
 	curState *State // state of the instruction being executed (set around conversions that need the heap)
 	g        *Gen
